@@ -7,9 +7,18 @@
 //!                                      applies exactly these `with_*` calls, in this order, to
 //!                                      `AppBuilder::new_custom()` and calls `build(init_fn)`            -> ok
 //!   send-top (KIND H)+                 user u1 sends the messages in one `execute_multi`                -> ok|err|panic
-//!   send-sub native|lifted (KIND H)+   u1 executes the emitter contract, which returns the messages as
-//!                                      sub-messages (native: `ContractWrapper::new`, chain message type;
-//!                                      lifted: `Empty`-typed, `ContractWrapper::new_with_empty`)        -> ok|err|panic
+//!   send-sub-from ENTRY native|lifted (KIND H)+
+//!                                      the emitter contract returns the messages as sub-messages from its entry
+//!                                      point ENTRY := instantiate|execute|migrate|sudo|reply (native:
+//!                                      `ContractWrapper::new(..).with_sudo.with_reply.with_migrate`, chain message
+//!                                      type; lifted: `Empty`-typed, `new_with_empty(..).with_sudo_empty
+//!                                      .with_reply_empty.with_migrate_empty`). instantiate: u1 instantiates a fresh
+//!                                      instance (symbol `cx`) of the emitter code; execute: u1 executes the emitter
+//!                                      (`cn` / `cl`); migrate: the emitter's admin u2 migrates it to its own code;
+//!                                      sudo: `App::sudo(SudoMsg::Wasm)`; reply: u1 executes the emitter, which
+//!                                      dispatches a no-op call to itself with reply_on = always and the list as
+//!                                      sub-message payload, and emits the list from `reply`                  -> ok|err|panic
+//!   send-sub native|lifted (KIND H)+   alias of `send-sub-from execute …`
 //!   query KIND H                       `App::raw_query`                                                 -> ok H|err|panic
 //!   sudo KIND H                        `App::sudo`                                                      -> ok|err|panic
 //!   records                            drains the calls recorded by the modules / the contract          -> [slot#tag:entry:sender:payload,…]
@@ -22,7 +31,7 @@ use cosmwasm_std::testing::{mock_env, MockApi, MockQuerier, MockStorage};
 use cosmwasm_std::{
     coin, to_json_binary, to_json_vec, Addr, AnyMsg, Api, BankMsg, BankQuery, Binary, BlockInfo, CanonicalAddr, Checksum,
     ContractResult, CosmosMsg, CustomMsg, CustomQuery, Decimal, Deps, DepsMut, DistributionMsg, DistributionQuery, Empty, Env,
-    GovMsg, GrpcQuery, IbcMsg, IbcQuery, MessageInfo, OwnedDeps, Querier, QueryRequest, Reply, Response, StakingMsg,
+    from_json, GovMsg, GrpcQuery, IbcMsg, IbcQuery, MessageInfo, OwnedDeps, Querier, QueryRequest, Reply, Response, StakingMsg, SubMsg,
     StakingQuery, Storage, SubMsgResponse, SubMsgResult, SystemResult, Timestamp, VoteOption, WasmMsg, WasmQuery,
 };
 use cw_multi_test::error::AnyError;
@@ -67,6 +76,8 @@ struct Rec {
 thread_local! {
     static LOG: RefCell<Vec<Rec>> = RefCell::new(vec![]);
     static INIT_COUNT: Cell<u32> = Cell::new(0);
+    /// own address seen by the emitter's `instantiate` the last time it ran (the fresh instance `cx`)
+    static FRESH: RefCell<String> = RefCell::new(String::new());
 }
 
 fn record(slot: &'static str, tag: u32, entry: &'static str, sender: &str, payload: String) {
@@ -484,7 +495,7 @@ fn mk_sudo(kind: &str, h: &[u8], contract: &str) -> Option<SudoMsg> {
         "staking" => SudoMsg::Staking(StakingSudo::Slash { validator: pstr(h), percentage: Decimal::percent(50) }),
         "wasm" => SudoMsg::Wasm(WasmSudo {
             contract_addr: Addr::unchecked(contract),
-            message: to_json_binary(&DataMsg { data: Binary::from(h) }).unwrap(),
+            message: to_json_binary(&SudoIn::Data { data: Binary::from(h) }).unwrap(),
         }),
         "custom" => SudoMsg::Custom(Empty {}),
         _ => return None,
@@ -494,15 +505,45 @@ fn mk_sudo(kind: &str, h: &[u8], contract: &str) -> Option<SudoMsg> {
 // ------------------------------------------------------------------------------------------------
 // the emitter / sink contract, once for the chain's message type and once `Empty`-typed
 
+type Items = Vec<(String, Binary)>;
+
 #[derive(Serialize, Deserialize, Clone, Debug)]
 enum ExecMsg {
     Sink { data: Binary },
-    Emit { items: Vec<(String, Binary)> },
+    Emit { items: Items },
+    /// does nothing; the harmless sub-message whose reply emits
+    Nop {},
+    /// dispatches `Nop` to itself with reply_on = always; `reply` emits the items
+    ReplyEmit { items: Items },
+}
+
+/// message of `instantiate` and `migrate`: the sub-messages to emit (`{}` = none)
+#[derive(Serialize, Deserialize, Clone, Debug, Default)]
+struct EmitMsg {
+    #[serde(default)]
+    items: Items,
+}
+
+#[derive(Serialize, Deserialize, Clone, Debug)]
+enum SudoIn {
+    Data { data: Binary },
+    Emit { items: Items },
 }
 
 #[derive(Serialize, Deserialize, Clone, Debug)]
 struct DataMsg {
     data: Binary,
+}
+
+fn emit<C: CustomMsg>(env: &Env, items: Items, custom: &dyn Fn(&[u8]) -> C) -> Result<Response<C>, AnyError> {
+    let mut r = Response::new();
+    for (k, h) in items {
+        match mk_msg::<C>(&k, h.as_slice(), env.contract.address.as_str(), custom) {
+            Some(m) => r = r.add_message(m),
+            None => bail!("unknown kind"),
+        }
+    }
+    Ok(r)
 }
 
 fn run_exec<C: CustomMsg>(env: Env, info: MessageInfo, msg: ExecMsg, custom: &dyn Fn(&[u8]) -> C) -> Result<Response<C>, AnyError> {
@@ -511,41 +552,82 @@ fn run_exec<C: CustomMsg>(env: Env, info: MessageInfo, msg: ExecMsg, custom: &dy
             record("wasm", 0, "exec", info.sender.as_str(), hex(data.as_slice()));
             Ok(Response::new())
         }
-        ExecMsg::Emit { items } => {
-            let mut r = Response::new();
-            for (k, h) in items {
-                match mk_msg::<C>(&k, h.as_slice(), env.contract.address.as_str(), custom) {
-                    Some(m) => r = r.add_message(m),
-                    None => bail!("unknown kind"),
-                }
-            }
-            Ok(r)
+        ExecMsg::Emit { items } => emit(&env, items, custom),
+        ExecMsg::Nop {} => Ok(Response::new()),
+        ExecMsg::ReplyEmit { items } => {
+            let nop = WasmMsg::Execute {
+                contract_addr: env.contract.address.to_string(),
+                msg: to_json_binary(&ExecMsg::Nop {}).unwrap(),
+                funds: vec![],
+            };
+            Ok(Response::new().add_submessage(SubMsg::reply_always(nop, 7).with_payload(to_json_binary(&items).unwrap())))
         }
     }
 }
 
-fn n_exec(_d: DepsMut<CQuery>, env: Env, info: MessageInfo, msg: ExecMsg) -> Result<Response<CMsg>, AnyError> {
-    run_exec(env, info, msg, &|h| CMsg { data: Binary::from(h) })
+fn run_sudo<C: CustomMsg>(env: Env, msg: SudoIn, custom: &dyn Fn(&[u8]) -> C) -> Result<Response<C>, AnyError> {
+    match msg {
+        SudoIn::Data { data } => {
+            record("wasm", 0, "sudo", "-", hex(data.as_slice()));
+            Ok(Response::new())
+        }
+        SudoIn::Emit { items } => emit(&env, items, custom),
+    }
 }
-fn n_inst(_d: DepsMut<CQuery>, _e: Env, _i: MessageInfo, _m: Empty) -> Result<Response<CMsg>, AnyError> {
-    Ok(Response::new())
+
+fn run_inst<C: CustomMsg>(env: Env, msg: EmitMsg, custom: &dyn Fn(&[u8]) -> C) -> Result<Response<C>, AnyError> {
+    FRESH.with(|f| *f.borrow_mut() = env.contract.address.to_string());
+    emit(&env, msg.items, custom)
+}
+
+fn run_reply<C: CustomMsg>(env: Env, msg: Reply, custom: &dyn Fn(&[u8]) -> C) -> Result<Response<C>, AnyError> {
+    let items: Items = from_json(&msg.payload)?;
+    emit(&env, items, custom)
+}
+
+fn native_custom(h: &[u8]) -> CMsg {
+    CMsg { data: Binary::from(h) }
+}
+fn lifted_custom(_h: &[u8]) -> Empty {
+    Empty {}
+}
+
+fn n_exec(_d: DepsMut<CQuery>, env: Env, info: MessageInfo, msg: ExecMsg) -> Result<Response<CMsg>, AnyError> {
+    run_exec(env, info, msg, &native_custom)
+}
+fn n_inst(_d: DepsMut<CQuery>, env: Env, _i: MessageInfo, msg: EmitMsg) -> Result<Response<CMsg>, AnyError> {
+    run_inst(env, msg, &native_custom)
 }
 fn n_query(_d: Deps<CQuery>, _e: Env, msg: DataMsg) -> Result<Binary, AnyError> {
     record("wasm", 0, "query", "-", hex(msg.data.as_slice()));
     Ok(msg.data)
 }
-fn n_sudo(_d: DepsMut<CQuery>, _e: Env, msg: DataMsg) -> Result<Response<CMsg>, AnyError> {
-    record("wasm", 0, "sudo", "-", hex(msg.data.as_slice()));
-    Ok(Response::new())
+fn n_sudo(_d: DepsMut<CQuery>, env: Env, msg: SudoIn) -> Result<Response<CMsg>, AnyError> {
+    run_sudo(env, msg, &native_custom)
+}
+fn n_reply(_d: DepsMut<CQuery>, env: Env, msg: Reply) -> Result<Response<CMsg>, AnyError> {
+    run_reply(env, msg, &native_custom)
+}
+fn n_migrate(_d: DepsMut<CQuery>, env: Env, msg: EmitMsg) -> Result<Response<CMsg>, AnyError> {
+    emit(&env, msg.items, &native_custom)
 }
 fn l_exec(_d: DepsMut<Empty>, env: Env, info: MessageInfo, msg: ExecMsg) -> Result<Response<Empty>, AnyError> {
-    run_exec(env, info, msg, &|_| Empty {})
+    run_exec(env, info, msg, &lifted_custom)
 }
-fn l_inst(_d: DepsMut<Empty>, _e: Env, _i: MessageInfo, _m: Empty) -> Result<Response<Empty>, AnyError> {
-    Ok(Response::new())
+fn l_inst(_d: DepsMut<Empty>, env: Env, _i: MessageInfo, msg: EmitMsg) -> Result<Response<Empty>, AnyError> {
+    run_inst(env, msg, &lifted_custom)
 }
 fn l_query(_d: Deps<Empty>, _e: Env, msg: DataMsg) -> Result<Binary, AnyError> {
     Ok(msg.data)
+}
+fn l_sudo(_d: DepsMut<Empty>, env: Env, msg: SudoIn) -> Result<Response<Empty>, AnyError> {
+    run_sudo(env, msg, &lifted_custom)
+}
+fn l_reply(_d: DepsMut<Empty>, env: Env, msg: Reply) -> Result<Response<Empty>, AnyError> {
+    run_reply(env, msg, &lifted_custom)
+}
+fn l_migrate(_d: DepsMut<Empty>, env: Env, msg: EmitMsg) -> Result<Response<Empty>, AnyError> {
+    emit(&env, msg.items, &lifted_custom)
 }
 
 // ------------------------------------------------------------------------------------------------
@@ -592,7 +674,8 @@ where
         self.store_code(code)
     }
     fn instantiate(&mut self, code_id: u64, label: &str) -> AnyResult<Addr> {
-        self.instantiate_contract(code_id, Addr::unchecked("u0"), &Empty {}, &[], label, None)
+        // the admin (u2) is neither the contract, nor the creator (u0), nor the usual sender (u1)
+        self.instantiate_contract(code_id, Addr::unchecked("u0"), &Empty {}, &[], label, Some("u2".to_string()))
     }
     fn canon(&self, addr: &str) -> Option<Vec<u8>> {
         self.api().addr_canonicalize(addr).ok().map(|c| c.to_vec())
@@ -679,20 +762,24 @@ struct Built {
     app: Box<dyn DynApp>,
     native: String,
     lifted: String,
+    code_native: u64,
+    code_lifted: u64,
 }
 
 fn build(steps: &[Step]) -> Built {
     INIT_COUNT.with(|c| c.set(0));
     let mut app = apply(AppBuilder::new_custom(), steps);
-    let native = ContractWrapper::new(n_exec, n_inst, n_query).with_sudo(n_sudo);
-    let lifted: ContractWrapper<ExecMsg, Empty, DataMsg, AnyError, AnyError, AnyError, CMsg, CQuery> =
+    let native = ContractWrapper::new(n_exec, n_inst, n_query).with_sudo(n_sudo).with_reply(n_reply).with_migrate(n_migrate);
+    let lifted: ContractWrapper<ExecMsg, EmitMsg, DataMsg, AnyError, AnyError, AnyError, CMsg, CQuery> =
         ContractWrapper::new_with_empty(l_exec, l_inst, l_query);
+    let lifted = lifted.with_sudo_empty(l_sudo).with_reply_empty(l_reply).with_migrate_empty(l_migrate);
     let c1 = app.store(Box::new(native));
     let c2 = app.store(Box::new(lifted));
     let native = app.instantiate(c1, "native").map(|a| a.to_string()).unwrap_or_else(|_| "?".into());
     let lifted = app.instantiate(c2, "lifted").map(|a| a.to_string()).unwrap_or_else(|_| "?".into());
     LOG.with(|l| l.borrow_mut().clear());
-    Built { app, native, lifted }
+    FRESH.with(|f| f.borrow_mut().clear());
+    Built { app, native, lifted, code_native: c1, code_lifted: c2 }
 }
 
 fn outcome<T>(r: Option<AnyResult<T>>) -> String {
@@ -736,7 +823,7 @@ fn run_op(st: &mut Option<Built>, t: &[&str]) -> String {
     if t[0] == "wrapper" {
         return wrapper_op(&t[1..]);
     }
-    let known = ["send-top", "send-sub", "query", "sudo", "records", "block", "storage-dump", "init-count", "api-prefix", "wasm-gen"];
+    let known = ["send-top", "send-sub", "send-sub-from", "query", "sudo", "records", "block", "storage-dump", "init-count", "api-prefix", "wasm-gen"];
     if !known.contains(&t[0]) {
         return "bad-op".into();
     }
@@ -748,21 +835,37 @@ fn run_op(st: &mut Option<Built>, t: &[&str]) -> String {
             let Some(msgs) = msgs else { return "bad-op".into() };
             outcome(guarded(|| b.app.exec_multi(Addr::unchecked("u1"), msgs)))
         }
-        "send-sub" => {
-            if t.len() < 2 || !(t[1] == "native" || t[1] == "lifted") {
+        "send-sub" | "send-sub-from" => {
+            // `send-sub X …` = `send-sub-from execute X …`
+            let (entry, rest) = if t[0] == "send-sub" { ("execute", &t[1..]) } else if t.len() >= 2 { (t[1], &t[2..]) } else { return "bad-op".into() };
+            if !["instantiate", "execute", "migrate", "sudo", "reply"].contains(&entry) {
                 return "bad-op".into();
             }
-            let Some(items) = pairs(&t[2..]) else { return "bad-op".into() };
+            if rest.is_empty() || !(rest[0] == "native" || rest[0] == "lifted") {
+                return "bad-op".into();
+            }
+            let native = rest[0] == "native";
+            let Some(items) = pairs(&rest[1..]) else { return "bad-op".into() };
             if items.iter().any(|(k, h)| mk_msg::<Empty>(k, h, "x", &|_| Empty {}).is_none()) {
                 return "bad-op".into();
             }
-            let target = if t[1] == "native" { b.native.clone() } else { b.lifted.clone() };
-            let msg = CosmosMsg::Wasm(WasmMsg::Execute {
-                contract_addr: target,
-                msg: to_json_binary(&ExecMsg::Emit { items: items.into_iter().map(|(k, h)| (k, Binary::from(h))).collect() }).unwrap(),
-                funds: vec![],
-            });
-            outcome(guarded(|| b.app.exec_multi(Addr::unchecked("u1"), vec![msg])))
+            let items: Items = items.into_iter().map(|(k, h)| (k, Binary::from(h))).collect();
+            let target = if native { b.native.clone() } else { b.lifted.clone() };
+            let code_id = if native { b.code_native } else { b.code_lifted };
+            let (sender, msg) = match entry {
+                "execute" => ("u1", WasmMsg::Execute { contract_addr: target, msg: to_json_binary(&ExecMsg::Emit { items }).unwrap(), funds: vec![] }),
+                "reply" => ("u1", WasmMsg::Execute { contract_addr: target, msg: to_json_binary(&ExecMsg::ReplyEmit { items }).unwrap(), funds: vec![] }),
+                "instantiate" => (
+                    "u1",
+                    WasmMsg::Instantiate { admin: None, code_id, msg: to_json_binary(&EmitMsg { items }).unwrap(), funds: vec![], label: "fresh".into() },
+                ),
+                "migrate" => ("u2", WasmMsg::Migrate { contract_addr: target, new_code_id: code_id, msg: to_json_binary(&EmitMsg { items }).unwrap() }),
+                _ => {
+                    let sudo = SudoMsg::Wasm(WasmSudo { contract_addr: Addr::unchecked(target), message: to_json_binary(&SudoIn::Emit { items }).unwrap() });
+                    return outcome(guarded(|| b.app.do_sudo(sudo)));
+                }
+            };
+            outcome(guarded(|| b.app.exec_multi(Addr::unchecked(sender), vec![CosmosMsg::Wasm(msg)])))
         }
         "query" => {
             if t.len() != 3 {
@@ -792,6 +895,8 @@ fn run_op(st: &mut Option<Built>, t: &[&str]) -> String {
                     "cn".to_string()
                 } else if s == b.lifted {
                     "cl".to_string()
+                } else if !s.is_empty() && FRESH.with(|f| *f.borrow() == s) {
+                    "cx".to_string()
                 } else {
                     penc(s)
                 }
@@ -951,6 +1056,7 @@ const SLOTS: [&str; 7] = ["bank", "custom", "staking", "distribution", "ibc", "g
 const EXEC_KINDS: [&str; 9] = ["bank", "wasm", "custom", "staking", "distribution", "ibc", "gov", "stargate", "any"];
 const QUERY_KINDS: [&str; 7] = ["bank", "wasm", "custom", "staking", "ibc", "stargate", "grpc"];
 const SUDO_KINDS: [&str; 3] = ["bank", "staking", "wasm"];
+const ENTRIES: [&str; 5] = ["instantiate", "execute", "migrate", "sudo", "reply"];
 const PAYLOADS: [&str; 6] = ["-", "00", "01", "ff", "0102", "a0b1c2"];
 
 fn module_step(rng: &mut Rng, slot: &str, rec_bias: bool) -> String {
@@ -988,10 +1094,19 @@ fn items(rng: &mut Rng, n: u64, lifted: bool) -> String {
 
 fn send_op(rng: &mut Rng) -> String {
     let n = if rng.chance(1, 4) { rng.range(2, 3) } else { 1 };
-    match rng.below(3) {
-        0 => format!("send-top {}", items(rng, n, false)),
-        1 => format!("send-sub native {}", items(rng, n, false)),
-        _ => format!("send-sub lifted {}", items(rng, n, true)),
+    match rng.below(8) {
+        0 | 1 => format!("send-top {}", items(rng, n, false)),
+        2 => format!("send-sub native {}", items(rng, n, false)),
+        3 => format!("send-sub lifted {}", items(rng, n, true)),
+        _ => {
+            // a sub-message from any of the five entry points, from either flavour of contract
+            let entry = rng.pick(&ENTRIES);
+            if rng.chance(1, 2) {
+                format!("send-sub-from {} native {}", entry, items(rng, n, false))
+            } else {
+                format!("send-sub-from {} lifted {}", entry, items(rng, n, true))
+            }
+        }
     }
 }
 
@@ -1103,6 +1218,10 @@ pub fn gen_route(rng: &mut Rng, thorough: bool) -> Vec<String> {
             out.push("records".into());
             out.push("send-sub lifted ibc 03 any 04".into());
             out.push("records".into());
+            for (i, e) in ENTRIES.iter().enumerate() {
+                out.push(format!("send-sub-from {} {} {} 05 stargate 06", e, if (i + steps.len()) % 2 == 0 { "native" } else { "lifted" }, EXEC_KINDS[(i + steps.len()) % 9].replace("custom", "gov")));
+                out.push("records".into());
+            }
             observe_all(&mut out);
         }
     } else if family < 19 {
@@ -1131,7 +1250,10 @@ pub fn gen_route(rng: &mut Rng, thorough: bool) -> Vec<String> {
         out.push(format!("build {}", module_step(rng, "gov", false)));
         let more = ["send-top foo 01", "send-top gov", "send-top gov zz", "send-top gov 01020304050607", "send-sub sideways gov 01",
                     "send-sub lifted custom 01", "send-sub native custom 01 foo 02", "query distribution 01", "query gov 01", "sudo custom -",
-                    "sudo gov 01", "query bank", "send-top grpc 01", "send-sub lifted custom -", "send-top custom 01 custom 02"];
+                    "sudo gov 01", "query bank", "send-top grpc 01", "send-sub lifted custom -", "send-top custom 01 custom 02",
+                    "send-sub-from", "send-sub-from migrate", "send-sub-from nowhere native gov 01", "send-sub-from migrate sideways gov 01",
+                    "send-sub-from reply lifted custom 01", "send-sub-from sudo lifted gov 01 custom 02", "send-sub-from instantiate native gov zz",
+                    "send-sub-from migrate native gov 01 ibc"];
         for _ in 0..rng.range(3, 7) {
             out.push(rng.pick(&more).to_string());
             out.push("records".into());
